@@ -45,21 +45,125 @@ def sql_alias_unit(sel, i):
     return ue, (unit_of_name(name) if name else None), name
 
 
+class _Rows:
+    """Rows of a tabulated output: the zipped column expressions (in the order they are written) and
+    whether the row order is the reverse of the zipped order."""
+
+    def __init__(self, args, rev):
+        self.args = list(args)
+        self.rev = rev
+
+
+def _labels_of(flow, e):
+    """[[str, ...]] or a name bound to [str, ...] inside a one-element list -> the list node of labels."""
+    if isinstance(e, ast.Name):
+        e = flow.def_value(e)
+    if isinstance(e, ast.List) and len(e.elts) == 1:
+        inner = e.elts[0]
+        while isinstance(inner, ast.Call) and isinstance(inner.func, ast.Name) and inner.func.id in ("list", "tuple") and len(inner.args) == 1:
+            inner = inner.args[0]
+        if isinstance(inner, ast.Name):
+            nm = inner.id
+            inner = flow.def_value(inner)
+            if inner is None:
+                inner = flow.f.module.constants.get(nm)      # a module-level constant
+        if isinstance(inner, (ast.List, ast.Tuple)) and inner.elts and all(isinstance(x, ast.Constant) and isinstance(x.value, str) for x in inner.elts):
+            return inner
+    return None
+
+
+def _rows_of(flow, f, e, depth=0):
+    """Evaluate an expression to the rows it denotes, or None."""
+    if depth > 8 or e is None:
+        return None
+    if isinstance(e, ast.Call) and isinstance(e.func, ast.Name) and e.func.id in ("list", "tuple") and len(e.args) == 1:
+        return _rows_of(flow, f, e.args[0], depth + 1)
+    if isinstance(e, ast.Call) and isinstance(e.func, ast.Name) and e.func.id == "reversed" and len(e.args) == 1:
+        r = _rows_of(flow, f, e.args[0], depth + 1)
+        return _Rows(r.args, not r.rev) if r else None
+    if isinstance(e, ast.Subscript) and isinstance(e.slice, ast.Slice) and e.slice.lower is None and e.slice.upper is None \
+            and e.slice.step is not None and ast.unparse(e.slice.step) == "-1":
+        r = _rows_of(flow, f, e.value, depth + 1)
+        return _Rows(r.args, not r.rev) if r else None
+    if isinstance(e, ast.Call) and isinstance(e.func, ast.Name) and e.func.id == "zip" and len(e.args) >= 2 and not e.keywords:
+        return _Rows(e.args, False)
+    if isinstance(e, (ast.ListComp, ast.GeneratorExp)) and len(e.generators) == 1 and not e.generators[0].ifs:
+        g = e.generators[0]
+        src = _rows_of(flow, f, g.iter, depth + 1)
+        if src is None:
+            return None
+        elt = e.elt
+        while isinstance(elt, ast.Call) and isinstance(elt.func, ast.Name) and elt.func.id in ("list", "tuple") and len(elt.args) == 1:
+            elt = elt.args[0]
+        if isinstance(g.target, ast.Name) and isinstance(elt, ast.Name) and elt.id == g.target.id:
+            return src                                  # list(item) for item in zip(...)
+        if isinstance(g.target, (ast.Tuple, ast.List)) and all(isinstance(t, ast.Name) for t in g.target.elts) \
+                and len(g.target.elts) == len(src.args) and isinstance(elt, (ast.List, ast.Tuple)) \
+                and all(isinstance(x, ast.Name) for x in elt.elts):
+            names = [t.id for t in g.target.elts]
+            if all(x.id in names for x in elt.elts):
+                return _Rows([src.args[names.index(x.id)] for x in elt.elts], src.rev)   # [a, b, c] for a, b, c in zip(...)
+        return None
+    if isinstance(e, ast.Name):
+        dv = flow.def_value(e, mutable_ok=True)
+        if dv is None:
+            return None
+        node = flow.cfg.node_containing(e)
+        dn = flow.unique_def_node(e)
+        muts = [st for st in (flow.mutations_between(e.id, dn, node) if dn is not None and node is not None else [])]
+        base = None
+        if isinstance(dv, (ast.List, ast.Tuple)) and not dv.elts:
+            # rows = [] ; for a, b, c in zip(...): rows.append([a, b, c])
+            apps = [m for m in muts if isinstance(m, ast.Expr) and isinstance(m.value, ast.Call) and isinstance(m.value.func, ast.Attribute)
+                    and m.value.func.attr == "append" and len(m.value.args) == 1]
+            if len(apps) == 1:
+                loop = getattr(apps[0], "parent", None)
+                if isinstance(loop, ast.For) and apps[0] in loop.body:
+                    src = _rows_of(flow, f, loop.iter, depth + 1)
+                    elt = apps[0].value.args[0]
+                    while isinstance(elt, ast.Call) and isinstance(elt.func, ast.Name) and elt.func.id in ("list", "tuple") and len(elt.args) == 1:
+                        elt = elt.args[0]
+                    if src is not None and isinstance(loop.target, ast.Name) and isinstance(elt, ast.Name) and elt.id == loop.target.id:
+                        base = src
+                    elif src is not None and isinstance(loop.target, (ast.Tuple, ast.List)) and all(isinstance(t, ast.Name) for t in loop.target.elts) \
+                            and len(loop.target.elts) == len(src.args) and isinstance(elt, (ast.List, ast.Tuple)) and all(isinstance(x, ast.Name) for x in elt.elts):
+                        names = [t.id for t in loop.target.elts]
+                        if all(x.id in names for x in elt.elts):
+                            base = _Rows([src.args[names.index(x.id)] for x in elt.elts], src.rev)
+                muts = [m for m in muts if m is not apps[0]]
+        else:
+            base = _rows_of(flow, f, dv, depth + 1)
+        if base is None:
+            return None
+        rev = base.rev
+        for m in muts:
+            if isinstance(m, ast.Expr) and isinstance(m.value, ast.Call) and isinstance(m.value.func, ast.Attribute) and m.value.func.attr == "reverse" \
+                    and not m.value.args and isinstance(getattr(m, "parent", None), (ast.FunctionDef, ast.If)):
+                rev = not rev
+            else:
+                return None              # changed in place by something else
+        return _Rows(base.args, rev)
+    return None
+
+
 def output_table(ctx, f):
-    """Find yaml.dump([[labels]] + rows-from-zip(...)) in function f:
-    returns (dump_call, labels list node, zip call, reversed?) or None."""
+    """Find the tabulated output yaml.dump([labels] + rows) in function f; rows come from a zip(...) of the
+    column arrays, possibly through comprehensions, an append loop, names, list() and reversals.
+    Returns (dump_call, labels list node, rows) with rows.args the column expressions and rows.rev the
+    reversal of the row order -- or None."""
+    flow = Flow.of(f)
     for c in ast.walk(f.node):
         if isinstance(c, ast.Call) and (dotted_name(c.func) or "").endswith("yaml.dump") and c.args:
             arg = c.args[0]
-            labels = None
-            z = None
-            for n in ast.walk(arg):
-                if isinstance(n, ast.List) and n.elts and all(isinstance(e, ast.Constant) and isinstance(e.value, str) for e in n.elts):
-                    labels = n
-                if isinstance(n, ast.Call) and isinstance(n.func, ast.Name) and n.func.id == "zip" and len(n.args) >= 2:
-                    z = n
-            if labels is not None and z is not None:
-                return c, labels, z
+            if isinstance(arg, ast.Name):
+                dv = flow.def_value(arg)
+                if dv is not None:
+                    arg = dv
+            if isinstance(arg, ast.BinOp) and isinstance(arg.op, ast.Add):
+                labels = _labels_of(flow, arg.left)
+                rows = _rows_of(flow, f, arg.right)
+                if labels is not None and rows is not None:
+                    return c, labels, rows
     return None
 
 
